@@ -6,7 +6,10 @@
 (* caches ipCache / introCache / svcCache (OrderedDicts, oldest first, one eviction per insertion).     *)
 (* One action per public call, with the branch structure of the code.  Every call that takes a Peer is  *)
 (* made with a FRESH Peer object (key p, one address) - as Community does for every received packet -   *)
-(* except RemovePeer, which is given the stored object (as the churn strategies do).                    *)
+(* except RemovePeer(p, 0), which is given the stored object (as the churn strategies do).  RemovePeer(p, a) *)
+(* with a # 0 is remove_peer called with ANOTHER Peer object of key p that carries the single address a - what  *)
+(* a caller holds that kept the Peer of a received packet - whether or not p is verified (services are recorded *)
+(* for peers that are not verified, too: removal ends the advertisement of every peer it names).                *)
 (*                                                                                                      *)
 (* The spec describes the REPAIRED code.  Defects switches the deviations of the pinned tree on:        *)
 (*   "rba"     remove_by_address leaves verified_by_public_key_bin untouched                            *)
@@ -14,6 +17,8 @@
 (*   "walk"    get_walkable_addresses(service) adds the introduction service to services_per_peer       *)
 (*   "svcjoin" a peer whose services are known BEFORE it becomes verified is not entered in / refreshed *)
 (*             in reverse_service_lookup when it becomes verified                                       *)
+(*   "rmunver" remove_peer cleans the by-key index and services_per_peer only when the peer it is given  *)
+(*             is verified: what a peer advertised before it was removed survives its removal            *)
 (*                                                                                                      *)
 (* The CALLER's side: discover_services takes `services: Iterable`.  bufs are NB collections of service *)
 (* ids OWNED BY THE CALLER (payload lists, sets, dict keys; IterBufs: one-shot iterators).              *)
@@ -55,13 +60,15 @@ VARIABLES verified,   \* keys of Network.verified_peers
           bufs,       \* [Bufs -> SUBSET Svcs]         : what the caller's collections hold (iterator: what is left)
           svcRef,     \* [Peers -> 0..NB]              : only with "alias": the caller's collection that IS the
                       \*                                 value of services_per_peer[p] (0: a set of the graph's own)
+          adv,        \* [Peers -> SUBSET Svcs]        : HISTORY (no counterpart in the code): the services handed to
+                      \*                                 discover_services for p since p was last removed / since the start
           ret,        \* return value of the last call as a set (peers / addresses), {} for None / no result
           depth,      \* number of calls made (every call is enabled only while depth < MaxDepth; hidden by the VIEWs)
           op          \* the last call <<name, peer, address>> (read by the action properties only; hidden by the VIEWs)
 absvars == <<verified, addrOf, services, all>>
 caller  == <<bufs, svcRef>>
 graph   == <<verified, addrOf, services, all, byKey, ipCache, introCache, svcCache>>
-vars    == <<verified, addrOf, services, all, byKey, ipCache, introCache, svcCache, bufs, svcRef, ret, depth, op>>
+vars    == <<verified, addrOf, services, all, byKey, ipCache, introCache, svcCache, bufs, svcRef, adv, ret, depth, op>>
 Did(n, x, y) == depth < MaxDepth /\ op' = <<n, x, y>> /\ depth' = depth + 1
 
 NoAddr     == [v4 |-> 0, v6 |-> 0]
@@ -119,7 +126,7 @@ AddVerified(p, a) ==
   /\ LET r == AddBody(p, a, all) IN
        verified' = r.v /\ byKey' = r.k /\ addrOf' = r.ad /\ all' = r.al /\ svcCache' = r.sc
   /\ ret' = {}
-  /\ UNCHANGED <<services, ipCache, introCache, bufs, svcRef>>
+  /\ UNCHANGED <<services, ipCache, introCache, bufs, svcRef, adv>>
 
 (* ------------------------------ discover_address --------------------------------------------------- *)
 DiscoverAddress(p, pa, a, sv, ns) ==
@@ -135,7 +142,7 @@ DiscoverAddress(p, pa, a, sv, ns) ==
      IN /\ verified' = r.v /\ byKey' = r.k /\ addrOf' = r.ad /\ all' = r.al /\ svcCache' = r.sc
         /\ introCache' = ic1
   /\ ret' = {}
-  /\ UNCHANGED <<services, ipCache, bufs, svcRef>>
+  /\ UNCHANGED <<services, ipCache, bufs, svcRef, adv>>
 
 (* ------------------------------ discover_services -------------------------------------------------- *)
 (* services_per_peer[p] |= S2, where S2 was read from the caller's collection b (0: from a value nobody else holds). *)
@@ -159,10 +166,12 @@ RefreshSvcCache(p, pa, S2) ==
        IF svcCache[i][1] \in S2
        THEN <<svcCache[i][1], {e \in svcCache[i][2] : e[1] # p} \cup {<<p, m>>}>> ELSE svcCache[i]]
 
+Advertise(p, S2) == adv' = [adv EXCEPT ![p] = @ \cup S2]      \* the history: what was handed over for p, whatever p is
+
 DiscoverServices(p, pa, S2) ==         \* the services arrive in a fresh list (as all callers in the library do)
   /\ Did("DiscoverServices", p, 0)
   /\ S2 # {}
-  /\ StoreServices(p, S2, 0)
+  /\ StoreServices(p, S2, 0) /\ Advertise(p, S2)
   /\ svcCache' = RefreshSvcCache(p, pa, S2)
   /\ ret' = {}
   /\ UNCHANGED <<verified, addrOf, all, byKey, ipCache, introCache>>
@@ -170,7 +179,7 @@ DiscoverServices(p, pa, S2) ==         \* the services arrive in a fresh list (a
 DiscoverServicesBuf(p, pa, b) ==       \* the services arrive in the caller's collection b, handed over as it is
   /\ Did("DiscoverServicesBuf", p, b)
   /\ bufs[b] # {}
-  /\ StoreServices(p, bufs[b], b)
+  /\ StoreServices(p, bufs[b], b) /\ Advertise(p, bufs[b])
   /\ svcCache' = RefreshSvcCache(p, pa, IF b \in IterBufs /\ "iteronce" \in Defects THEN {} ELSE bufs[b])
   /\ ret' = {}
   /\ UNCHANGED <<verified, addrOf, all, byKey, ipCache, introCache>>
@@ -182,7 +191,7 @@ CallerMutates(b, S) ==
   /\ bufs' = [bufs EXCEPT ![b] = S]
   /\ services' = IF "alias" \in Defects THEN [q \in Peers |-> IF svcRef[q] = b THEN S ELSE services[q]] ELSE services
   /\ ret' = {}
-  /\ UNCHANGED <<verified, addrOf, all, byKey, ipCache, introCache, svcCache, svcRef>>
+  /\ UNCHANGED <<verified, addrOf, all, byKey, ipCache, introCache, svcCache, svcRef, adv>>
 
 (* ------------------------------ get_peers_for_service ---------------------------------------------- *)
 PFSOut(sc, s)   == IF Has(sc, s)
@@ -194,7 +203,7 @@ GetPeersForService(s) ==
   /\ Did("GetPeersForService", 0, 0)
   /\ svcCache' = PFSCache(svcCache, s)
   /\ ret' = {e[1] : e \in PFSOut(svcCache, s)}
-  /\ UNCHANGED <<verified, addrOf, services, all, byKey, ipCache, introCache, bufs, svcRef>>
+  /\ UNCHANGED <<verified, addrOf, services, all, byKey, ipCache, introCache, bufs, svcRef, adv>>
 
 (* ------------------------------ get_walkable_addresses --------------------------------------------- *)
 ObjAddrs(e) == IF e[2] = 0 THEN AddrSet(e[1]) ELSE {e[2]}
@@ -217,7 +226,7 @@ GetWalkable(s, o) ==
   /\ svcCache' = IF s = 0 THEN svcCache ELSE PFSCache(svcCache, s)
   /\ services' = IF s # 0 /\ "walk" \in Defects
                  THEN WalkServices(Dom(all) \ UNION {ObjAddrs(e) : e \in PFSOut(svcCache, s)}, o) ELSE services
-  /\ UNCHANGED <<verified, addrOf, all, byKey, ipCache, introCache, bufs, svcRef>>
+  /\ UNCHANGED <<verified, addrOf, all, byKey, ipCache, introCache, bufs, svcRef, adv>>
 
 (* ------------------------------ get_verified_by_address -------------------------------------------- *)
 IpHit(a) == LET c == IF Has(ipCache, a) THEN Get(ipCache, a) ELSE 0 IN
@@ -233,13 +242,13 @@ GetByAddressG(a, q, strict) ==
           \/ q # 0 /\ q = IpHit(a)
   /\ ipCache' = IF q = 0 THEN Del(ipCache, a) ELSE PutEnd(ipCache, a, q, IpCap)
   /\ ret' = IF q = 0 THEN {} ELSE {q}
-  /\ UNCHANGED <<verified, addrOf, services, all, byKey, introCache, svcCache, bufs, svcRef>>
+  /\ UNCHANGED <<verified, addrOf, services, all, byKey, introCache, svcCache, bufs, svcRef, adv>>
 GetByAddress(a, q) == GetByAddressG(a, q, TRUE)
 
 GetByKey(p) ==
   /\ Did("GetByKey", p, 0)
   /\ ret' = IF p \in byKey THEN {p} ELSE {}
-  /\ UNCHANGED <<verified, addrOf, services, all, byKey, ipCache, introCache, svcCache, bufs, svcRef>>
+  /\ UNCHANGED <<verified, addrOf, services, all, byKey, ipCache, introCache, svcCache, bufs, svcRef, adv>>
 
 (* ------------------------------ get_introductions_from --------------------------------------------- *)
 GetIntroductionsFrom(p) ==
@@ -247,7 +256,7 @@ GetIntroductionsFrom(p) ==
   /\ IF Has(introCache, p)
      THEN ret' = Get(introCache, p) /\ introCache' = introCache
      ELSE ret' = AbsIntros(p) /\ introCache' = Trim(Append(introCache, <<p, AbsIntros(p)>>), IntroCap)
-  /\ UNCHANGED <<verified, addrOf, services, all, byKey, ipCache, svcCache, bufs, svcRef>>
+  /\ UNCHANGED <<verified, addrOf, services, all, byKey, ipCache, svcCache, bufs, svcRef, adv>>
 
 (* ------------------------------ removal ------------------------------------------------------------ *)
 Forget(gone) ==
@@ -256,20 +265,30 @@ Forget(gone) ==
   /\ services' = [p \in Peers |-> IF p \in gone THEN {} ELSE services[p]]
   /\ svcRef'   = [p \in Peers |-> IF p \in gone THEN 0 ELSE svcRef[p]]      \* services_per_peer.pop(key)
 
+Unadvertise(gone) == adv' = [p \in Peers |-> IF p \in gone THEN {} ELSE adv[p]]     \* removal ends the advertisement
+
 RemoveByAddress(a) ==
   /\ Did("RemoveByAddress", 0, a)
   /\ all' = [all EXCEPT ![a] = Absent]
   /\ LET gone == {p \in verified : a \in AddrSet(p)} IN
-       Forget(gone) /\ byKey' = IF "rba" \in Defects THEN byKey ELSE byKey \ gone
+       Forget(gone) /\ Unadvertise(gone) /\ byKey' = IF "rba" \in Defects THEN byKey ELSE byKey \ gone
   /\ ret' = {}
   /\ UNCHANGED <<ipCache, introCache, svcCache, bufs>>
 
-RemovePeer(p) ==       \* called with the stored object of a verified peer
-  /\ Did("RemovePeer", p, 0)
-  /\ p \in verified
-  /\ all' = [a \in Addrs |-> IF a \in AddrSet(p) THEN Absent ELSE all[a]]
-  /\ Forget({p})
-  /\ byKey' = byKey \ {p}
+(* remove_peer(peer): pa = 0: peer is the stored object of the verified peer p; pa # 0: peer is another Peer object of  *)
+(* key p with the single address pa (Peer equality and hash go by the public key: `peer in verified_peers` holds iff  *)
+(* p is verified).  The addresses OF THE OBJECT HANDED IN leave _all_addresses; p leaves the membership and the       *)
+(* by-key index and stops advertising - whether or not it was verified (services_per_peer has entries for peers that  *)
+(* are not verified).                                                                                                  *)
+RemovePeer(p, pa) ==
+  /\ Did("RemovePeer", p, pa)
+  /\ (pa = 0 => p \in verified)
+  /\ LET held == IF pa = 0 THEN AddrSet(p) ELSE {pa} IN
+       all' = [a \in Addrs |-> IF a \in held THEN Absent ELSE all[a]]
+  /\ IF p \in verified \/ "rmunver" \notin Defects
+     THEN Forget({p}) /\ byKey' = byKey \ {p}
+     ELSE UNCHANGED <<verified, addrOf, services, svcRef, byKey>>
+  /\ Unadvertise({p})
   /\ ret' = {}
   /\ UNCHANGED <<ipCache, introCache, svcCache, bufs>>
 
@@ -279,14 +298,14 @@ FreshLoaded(S) == [a \in Addrs |-> IF a \in S THEN EmptyEntry ELSE Absent]
 Snapshot ==            \* snapshot() of this graph loaded into a fresh graph; ret = what is walkable there
   /\ Did("Snapshot", 0, 0)
   /\ ret' = Dom(FreshLoaded(SnapAddrs))
-  /\ UNCHANGED <<verified, addrOf, services, all, byKey, ipCache, introCache, svcCache, bufs, svcRef>>
+  /\ UNCHANGED <<verified, addrOf, services, all, byKey, ipCache, introCache, svcCache, bufs, svcRef, adv>>
 
 LoadSnapshot(S) ==     \* a snapshot listing the addresses S loaded into this graph
   /\ Did("LoadSnapshot", 0, 0)
   /\ S # {}
   /\ all' = [a \in Addrs |-> IF a \in S THEN EmptyEntry ELSE all[a]]
   /\ ret' = {}
-  /\ UNCHANGED <<verified, addrOf, services, byKey, ipCache, introCache, svcCache, bufs, svcRef>>
+  /\ UNCHANGED <<verified, addrOf, services, byKey, ipCache, introCache, svcCache, bufs, svcRef, adv>>
 
 (* ------------------------------ behaviours --------------------------------------------------------- *)
 Init == /\ verified = {} /\ byKey = {}
@@ -295,6 +314,7 @@ Init == /\ verified = {} /\ byKey = {}
         /\ all = [a \in Addrs |-> Absent]
         /\ ipCache = <<>> /\ introCache = <<>> /\ svcCache = <<>>
         /\ bufs = [b \in Bufs |-> {((b - 1) % NS) + 1}] /\ svcRef = [p \in Peers |-> 0]
+        /\ adv = [p \in Peers |-> {}]
         /\ ret = {} /\ depth = 0 /\ op = <<"Init", 0, 0>>
 
 DiscoverAddressH(p, a, sv, ns) == DiscoverAddress(p, Home(p), a, sv, ns)
@@ -308,7 +328,7 @@ Mutation == \/ \E p \in Peers, a \in Addrs : AddVerified(p, a)
             \/ \E p \in Peers, b \in Bufs : DiscoverServicesBufH(p, b)
             \/ \E b \in Bufs, S \in SUBSET Svcs : CallerMutates(b, S)
             \/ \E a \in Addrs : RemoveByAddress(a)
-            \/ \E p \in Peers : RemovePeer(p)
+            \/ \E p \in Peers, pa \in 0..NA : RemovePeer(p, pa)
             \/ \E S \in SnapSets : LoadSnapshot(S)
 Query    == \/ \E a \in Addrs, q \in 0..NP : GetByAddress(a, q)
             \/ \E p \in Peers : GetByKey(p)
@@ -319,10 +339,10 @@ Query    == \/ \E a \in Addrs, q \in 0..NP : GetByAddress(a, q)
 Next == Mutation \/ Query
 Spec == Init /\ [][Next]_vars
 
-NoDepth    == <<verified, addrOf, services, all, byKey, ipCache, introCache, svcCache, bufs, svcRef, ret>>   \* VIEW of dumped graphs
-NoOp       == <<verified, addrOf, services, all, byKey, ipCache, introCache, svcCache, bufs, svcRef, ret, depth>>   \* exact depth, any number of workers
-NoRetOp    == <<verified, addrOf, services, all, byKey, ipCache, introCache, svcCache, bufs, svcRef, depth>>
-NoRet      == <<verified, addrOf, services, all, byKey, ipCache, introCache, svcCache, bufs, svcRef>>        \* VIEW of large runs
+NoDepth    == <<verified, addrOf, services, all, byKey, ipCache, introCache, svcCache, bufs, svcRef, adv, ret>>   \* VIEW of dumped graphs
+NoOp       == <<verified, addrOf, services, all, byKey, ipCache, introCache, svcCache, bufs, svcRef, adv, ret, depth>>   \* exact depth, any number of workers
+NoRetOp    == <<verified, addrOf, services, all, byKey, ipCache, introCache, svcCache, bufs, svcRef, adv, depth>>
+NoRet      == <<verified, addrOf, services, all, byKey, ipCache, introCache, svcCache, bufs, svcRef, adv>>        \* VIEW of large runs
 
 (* ------------------------------ properties --------------------------------------------------------- *)
 TypeOK == /\ verified \subseteq Peers /\ byKey \subseteq Peers
@@ -330,6 +350,7 @@ TypeOK == /\ verified \subseteq Peers /\ byKey \subseteq Peers
           /\ \A p \in Peers : p \notin verified => addrOf[p] = NoAddr
           /\ bufs \in [Bufs -> SUBSET Svcs] /\ svcRef \in [Peers -> 0..NB] /\ IterBufs \subseteq Bufs
           /\ \A p \in Peers : svcRef[p] # 0 => ("alias" \in Defects /\ services[p] = bufs[svcRef[p]])
+          /\ adv \in [Peers -> SUBSET Svcs]
 
 (* the answer every lookup WOULD give in this state (computed through the implementation layer without *)
 (* performing the call) equals what the abstract layer implies                                         *)
@@ -339,6 +360,18 @@ PeersForAgrees   == \A s \in Svcs : {e[1] : e \in PFSOut(svcCache, s)} = AbsPeer
 WalkableAgrees   == \A s \in 0..NS, o \in BOOLEAN : (s = 0 => ~o) => ImplWalkable(svcCache, s, o) = AbsWalkable(s, o)
 LookupsAgree     == ByKeyAgrees /\ ByAddressAgrees /\ PeersForAgrees /\ WalkableAgrees
 IntroAgrees      == \A p \in Peers : Has(introCache, p) => Get(introCache, p) = AbsIntros(p)   \* NOT demanded (see driver)
+
+(* ------------------------------ advertised = handed over since the last removal -------------------- *)
+(* "advertised services" read off the history of calls alone: what the graph records for a peer (verified or not) is  *)
+(* what was handed to discover_services for it since it was last removed, and the per-service lookups give what THAT  *)
+(* implies - a peer that was removed and added again advertises nothing until it says so again                         *)
+AbsWalkableWith(sv, s, o) ==
+  LET pf == {p \in verified : s \in sv[p]} IN
+    {a \in Dom(all) \ UNION {AddrSet(p) : p \in pf} : ~(o /\ all[a].ns) /\ s \in SvcOf(all, sv, a)}
+AdvertisedSinceRemoval == services = adv
+PeersForHistory        == \A s \in Svcs : {e[1] : e \in PFSOut(svcCache, s)} = {p \in verified : s \in adv[p]}
+WalkableHistory        == \A s \in Svcs, o \in BOOLEAN : ImplWalkable(svcCache, s, o) = AbsWalkableWith(adv, s, o)
+HistoryAgrees          == AdvertisedSinceRemoval /\ PeersForHistory /\ WalkableHistory
 
 BlacklistedNeverVerified == verified \cap BlackMid = {} /\ byKey \cap BlackMid = {}
 (* fresh graph: nothing verified, so walkable = Dom(all) = the snapshot's addresses *)
@@ -351,6 +384,8 @@ QueriesPure   == [][op'[1] \in QueryNames => UNCHANGED absvars]_vars
 RemovedIsGone == [][/\ op'[1] = "RemovePeer" => (op'[2] \notin verified' /\ op'[2] \notin byKey')
                     /\ op'[1] = "RemoveByAddress" =>
                           \A p \in Peers : (p \in verified /\ op'[3] \in AddrSet(p)) => (p \notin verified' /\ p \notin byKey')]_vars
+(* ... whatever object names it and whether or not it was verified, and it advertises nothing any more *)
+RemovedIsClean == [][op'[1] = "RemovePeer" => (op'[2] \notin byKey' /\ services'[op'[2]] = {})]_vars
 (* ... and can be added again: add_verified_peer of a non-blacklisted identity at a non-blacklisted address verifies it *)
 ReAddWorks    == [][(op'[1] = "AddVerified" /\ op'[2] \notin BlackMid /\ op'[3] \notin BlackAddr) => op'[2] \in verified']_vars
 
